@@ -27,6 +27,7 @@ EXPLANATION = (
     "(multiply resp. add), the histogram passes the cycle values through unchanged and rebuilds only the load interval "
     "levels (shift leaves the range level alone). Not decided: histogram and re-binning conservation (numpy.histogram "
     "semantics, value-dependent overlap arithmetic).")
+EXPLANATION += (" R-C14-3: histogram combination aggregates the concatenated histograms per class with the requested method; the overlap share telescopes on every ordering of the interval bounds. R-C14-4: the range/mean histogram is fed with 2*amplitude and meanstress on both orderings of from/to, the range histogram counts 2*amplitude of the same collective, and re-binning selects each level's binning by the level's name.")
 ASSUMPTIONS = ["DataFrame.max(axis=1)/min(axis=1) over the two columns is the row-wise max/min", "range >= 0"]
 
 
